@@ -58,8 +58,15 @@ def extract_tests(scratch):
     return texts
 
 
-def run_native(scratch, test, release=False, timeout_s=900):
-    cmd = ["cargo", "kani", "playback", "-Z", "concrete-playback", "--", test]
+def run_native(scratch, test, release=False, timeout_s=900, harness=None):
+    """Runs one generated playback test natively. A harness stamped by a macro gets the test in
+    every expansion of that macro: `--exact <module path>::<test>` selects the one that belongs
+    to the failing harness (the others may trip their own `kani::assume`s)."""
+    if harness and "::" in harness:
+        test_path = harness.rsplit("::", 1)[0] + "::" + test
+        cmd = ["cargo", "kani", "playback", "-Z", "concrete-playback", "--", "--exact", test_path]
+    else:
+        cmd = ["cargo", "kani", "playback", "-Z", "concrete-playback", "--", test]
     env = dict(ENV, CARGO_TARGET_DIR=os.path.join(BUILD, "target-native"))
     if release:
         # `cargo kani playback` has no --release; the release profile's settings are
@@ -74,26 +81,33 @@ def run_native(scratch, test, release=False, timeout_s=900):
     except subprocess.TimeoutExpired as e:
         out, rc = "[timeout: native replay did not terminate in %ds]" % timeout_s, 124
     panicked = bool(re.search(r"panicked at|test result: FAILED|\.\.\. FAILED|SIGSEGV|SIGABRT|signal: \d+", out))
-    ran = bool(re.search(r"running \d+ test", out))
+    ran = bool(re.search(r"running [1-9]\d* test", out))
     return {"rc": rc, "ran": ran, "failed": (ran and rc != 0) or panicked or rc == 124,
             "tail": out[-2500:]}
 
 
-def insert_test(scratch, file_rel, code):
-    """Used by --replay: put a saved playback test back into a fresh scratch copy."""
+def insert_test(scratch, file_rel, code, line=None):
+    """Put a saved playback test into a scratch copy, right before the `#[kani::proof]` of its
+    harness. `line` = source line of the harness fn (Kani metadata): several harnesses may share
+    a function name (macro-stamped families), the line picks the right definition."""
     path = os.path.join(scratch, file_rel)
     src = open(path).read()
-    m = re.search(r"fn (kani_concrete_playback_(\w+?)_\d+)\(", code)
-    # the test must live in the module of its harness: place it right before the
-    # harness's #[kani::proof] attribute
     body_call = re.search(r"concrete_playback_run\(\s*concrete_vals,\s*(\w+)\s*\)", code)
     target = body_call.group(1) if body_call else None
     idx = None
     if target:
-        mm = re.search(r"(#\[kani::proof\][^\n]*\n(?:\s*#\[[^\n]*\n)*\s*(?:pub )?fn " + re.escape(target) + r"\()", src)
-        if mm:
-            idx = mm.start()
+        cands = [mm.start() for mm in re.finditer(r"#\[kani::proof\][^\n]*\n(?:\s*#\[[^\n]*\n)*\s*(?:pub )?fn " + re.escape(target) + r"\(", src)]
+        if cands and line:
+            offs = 0
+            for _ in range(max(0, int(line) - 1)):
+                offs = src.index("\n", offs) + 1
+            before = [c for c in cands if c <= offs + 200]
+            idx = max(before) if before else cands[0]
+        elif cands:
+            idx = cands[0]
     if idx is None:
         raise RuntimeError("cannot locate harness %s in %s" % (target, file_rel))
+    # keep the indentation context simple: insert at the start of that line
+    idx = src.rfind("\n", 0, idx) + 1
     src = src[:idx] + code + "\n" + src[idx:]
     open(path, "w").write(src)
